@@ -98,6 +98,10 @@ CONSTANTS = {
         # 0 when the two halves are combined with `|`, 1 when with `+` (one capture group that lands on the
         # last digit of `0xDC00` in the first spelling and on the `1` of `0x1_0000` in the second)
         ("J_PAIR_IS_ADD", _TAPE, r"let n = \(\(\(high - 0xD800\) as u32\) << 10\) (?:\| \(\(low - 0xDC0|\+ \(low - 0xDC00\) as u32 \+ 0x)([01])", "int"),
+        # ---- JSON reader: hex-encoded binary columns (decode_hex_to_writer's scratch buffer and nibble shift)
+        ("J_BIN_BUF", "arrow-json/src/reader/binary_array.rs", r"fn decode_hex_to_writer<.*?let mut buffer = \[0u8; ([0-9]+)\];", "int"),
+        ("J_BIN_SHIFT", "arrow-json/src/reader/binary_array.rs", r"fn decode_hex_to_writer<.*?= \(high << ([0-9]+)\) \| low;", "int"),
+        ("J_BIN_DIGIT_A", "arrow-json/src/reader/binary_array.rs", r"fn decode_hex_digit\(.*?b'a'\.\.=b'f' => Some\(byte - b'a' \+ ([0-9]+)\),", "int"),
         ("J_HEX_SHIFT", _TAPE, r"0\.\.=3 => \*high = \(\*high << ([0-9]+)\) \| parse_hex\(next!\(iter\)\)\? as u16,", "int"),
     ],
 }
